@@ -92,6 +92,11 @@ func newWorld(cfgIdx int, helpers []Helper) *world {
 		_ = c.Res().Get("X-B")
 		_ = c.String()
 		_ = c.Get("Content-Encoding")
+		// the conditional-GET recipe: with a validator on the response Fresh()/Stale() reach the If-None-Match list parser
+		c.Set(fiber.HeaderETag, `W/"v1"`)
+		c.Set(fiber.HeaderLastModified, "Mon, 02 Jan 2006 15:04:05 GMT")
+		_ = c.Fresh()
+		_ = c.Stale()
 		return w.runHelpers(c)
 	})
 	app.Handler()
@@ -604,7 +609,18 @@ func genReq(t *rapid.T) Req {
 	add("X-Forwarded-For", []string{"1.2.3.4, ::1", "junk", ",,,", "1.2.3.4,", " 9.9.9.9 , 8.8.8.8", strings.Repeat("1.1.1.1, ", 60)})
 	add("X-Forwarded-Host", []string{"evil.test", "a,b", ""})
 	add("X-Forwarded-Proto", []string{"https", "ftp,https"})
-	add("If-None-Match", []string{`W/"a", "b"`, "*", `"`, ","})
+	if rapid.IntRange(0, 3).Draw(t, "hasINM") == 0 {
+		// entity-tag lists from a grammar incl. empty and blank elements; no element matches the handler's validator most of the time
+		n := rapid.IntRange(1, 5).Draw(t, "inmN")
+		var sb strings.Builder
+		for i := 0; i < n; i++ {
+			if i > 0 {
+				sb.WriteString(rapid.SampledFrom([]string{",", ", ", " ,", " , ", ",  "}).Draw(t, "inmSep"))
+			}
+			sb.WriteString(rapid.SampledFrom([]string{`"v0"`, `W/"v0"`, `"a"`, `"v1"`, `W/"v1"`, "", " ", "  ", "*", `"`, "W/", `"a b"`, "\t"}).Draw(t, "inmTag"))
+		}
+		r.Headers = append(r.Headers, [2]string{"If-None-Match", sb.String()})
+	}
 	add("If-Modified-Since", []string{"Mon, 02 Jan 2006 15:04:05 GMT", "junk"})
 	add("X-Requested-With", []string{"XMLHttpRequest", "x"})
 	add("Connection", []string{"close", "keep-alive", "upgrade"})
